@@ -1,5 +1,6 @@
 // Copyright (c) ZeroC, Inc.
 
+use crate::ast::node::Node;
 use crate::ast::Ast;
 use crate::diagnostics::{Diagnostic, Diagnostics, Error};
 use crate::grammar::*;
@@ -54,6 +55,16 @@ impl<'a> RedefinitionChecker<'a> {
         // Stores all the _module-scoped_ Slice definitions we've seen so far.
         // Keys are the definition's fully-scoped identifiers, and values are references to the definitions themselves.
         let mut seen_definitions = HashMap::new();
+
+        // Modules can be reopened, so they're never redefinitions themselves, but they share a namespace with the
+        // definitions around them: a definition with the same scoped identifier as a module is a redefinition
+        // (only one of the two could be looked up in the AST by that identifier).
+        for node in ast.as_slice() {
+            if let Node::Module(module_ptr) = node {
+                let module: &dyn NamedSymbol = module_ptr.borrow();
+                seen_definitions.entry(module.parser_scoped_identifier()).or_insert(module);
+            }
+        }
 
         for node in ast.as_slice() {
             // We only check `Entity`s so as to exclude any Slice elements which don't have names (and hence cannot be
